@@ -423,7 +423,7 @@ def _shrink(prop: Property, case, still_fails, limit_s=20.0):
 
 
 def write_replay(prop: Property, n: int, payload: dict) -> str:
-    d = os.path.join(VERIF, 'replays')
+    d = os.environ.get('BV_REPLAY_DIR') or os.path.join(VERIF, 'replays')
     os.makedirs(d, exist_ok=True)
     p = os.path.join(d, '%s-%s-%d-%d.json' % (prop.PID, prop.tier, prop.seed, n))
     payload = dict(payload)
@@ -432,7 +432,7 @@ def write_replay(prop: Property, n: int, payload: dict) -> str:
     payload.setdefault('how_to_replay', './check %s --replay %s' % (prop.PID, os.path.relpath(p, VERIF)))
     with open(p, 'w') as f:
         json.dump(payload, f, indent=1, default=str)
-    return os.path.relpath(p, VERIF)
+    return os.path.relpath(p, VERIF) if p.startswith(VERIF + os.sep) else p
 
 
 def run_check(prop_cls, tier: str, seed: int, replay: str | None = None) -> int:
@@ -652,8 +652,9 @@ def run_check(prop_cls, tier: str, seed: int, replay: str | None = None) -> int:
         'wall_s': round(wall, 2),
         'violations': len(violations) + (1 if rc == 1 and not violations else 0),
     }
-    os.makedirs(os.path.join(VERIF, 'evidence'), exist_ok=True)
-    with open(os.path.join(VERIF, 'evidence', pid + '.json'), 'w') as f:
+    evdir = os.environ.get('BV_EVIDENCE_DIR') or os.path.join(VERIF, 'evidence')
+    os.makedirs(evdir, exist_ok=True)
+    with open(os.path.join(evdir, pid + '.json'), 'w') as f:
         json.dump(ev, f, indent=1, default=str)
     print('%s %s seed=%d: theorems %d/%d, cases %d (distinct non-trivial %d), corr mismatches %d, '
           'oracle failures %d, known-finding hits %s, %.1fs -> exit %d' % (
